@@ -47,7 +47,14 @@ def wrapper_table(model, config):
     fp = config.get("function_prefix")
     fp = (fp + "_") if fp else ""
     out = []
-    for o in types:
+    # the tool de-duplicates wrappers by name over the whole header (objects first, then groups, in
+    # header order): a borrowed-receiver wrapper is shared by all instantiations of its object
+    # (that is the documented "generic wrapper"), anything else that lands on a taken name is lost
+    taken = {}
+    order = [i for i, o in enumerate(types) if o["kind"] == "obj"] + [i for i, o in enumerate(types) if o["kind"] != "obj"]
+    out = [None] * len(types)
+    for oi in order:
+        o = types[oi]
         ctxp = CTX_PREFIX.get(o["ctx"], o["ctx"].lower())
         cfg_ctx = CONFIG_CTX.get(o["ctx"], o["ctx"])
         match = config.get("default_context") == cfg_ctx and config.get("default_container") == o["cont"]
@@ -55,7 +62,6 @@ def wrapper_table(model, config):
         cont_part = "" if match else o["cont"].lower() + "_"
         names = {}
         unnamed = []
-        taken = {}
 
         def typ(fname):
             if o["kind"] == "group":
@@ -71,13 +77,14 @@ def wrapper_table(model, config):
                     n = fp + typ(fname) + ctx_part + cont_part + fname
                 else:
                     n = fp + typ(fname) + fname
-                if n in taken:
+                ident = (o["kind"], o["name"], v["field"], fname) + ((o["cont"], o["ctx"]) if kind == "own" else ())
+                if n in taken and taken[n] != ident:
                     unnamed.append((v["field"], fname, taken[n]))
                     continue
-                taken[n] = (v["field"], fname)
+                taken[n] = ident
                 names[(v["field"], fname)] = n
         drop = fp + typ("drop") + ctx_part + cont_part + "drop"
-        out.append({"names": names, "drop": drop, "unnamed": unnamed})
+        out[oi] = {"names": names, "drop": drop, "unnamed": unnamed}
     return types, out
 
 
